@@ -4,6 +4,7 @@
 From Coq Require Import ZArith List String.
 From LV Require Import Base.Conc Base.Events Model.SpinLock Proofs.SpinLockProofs.
 From LV Require Model.Reentrant Proofs.ReentrantProofs.
+From LV Require Model.PoolMon Proofs.PoolMonBase Proofs.PoolMonProofs.
 From LV Require Model.Locks Model.LocksArray Model.LocksInj Proofs.LocksProofs Proofs.LocksArrayProofs Proofs.LocksInjProofs.
 Import ListNotations.
 Local Open Scope Z_scope.
@@ -113,4 +114,57 @@ Print Assumptions C22_injmon_mutex.
 Example C22_injmon_nonvacuous :
   let r := LocksInj.run_case [2; 50] [[[0;0;3;1]]; [[3;1]; [0;0]]] [0;0;1;1;0;1;0;0;1]%nat 1000 in
   snd r = true /\ List.length (filter (is_cli "enter") (map snd (fst r))) = 4%nat.
+Proof. vm_compute. repeat split; reflexivity. Qed.
+
+(** ---------------------------------------------------------------------------------------------------
+    cds::sync::pool_monitor< LockPool, backoff::empty, false > with lock_type = cds::sync::spin_lock and
+    LockPool = a LIFO pool whose allocate / deallocate are single atomic steps (Model/PoolMon.v explains the
+    instantiation; the real vyukov_queue_pool is property C24).  Any pool capacity (0 included: the pool then
+    creates locks on demand), any number of nodes and threads, any nesting, EVERY schedule.
+    [PoolMonBase.occ n tr] = #"enter n" - #"leave n". *)
+Theorem C22_poolmon_mutex :
+  forall (cap fuel : nat) (ths : list (list PoolMon.op)) c,
+    Conc.reach (PoolMon.init_cfg cap fuel ths) c ->
+    forall n, 0 <= PoolMonBase.occ n (Conc.trace c) <= 1.
+Proof. exact PoolMonProofs.poolmon_mutex. Qed.
+Print Assumptions C22_poolmon_mutex.
+
+(** never one pool lock in two nodes at once; an installed lock is not in the pool; no lock twice in the pool *)
+Theorem C22_poolmon_no_sharing :
+  forall (cap fuel : nat) (ths : list (list PoolMon.op)) c,
+    Conc.reach (PoolMon.init_cfg cap fuel ths) c ->
+    (forall n n' x, PoolMon.plock (Conc.shared c) n = Some x -> PoolMon.plock (Conc.shared c) n' = Some x -> n = n') /\
+    (forall n x, PoolMon.plock (Conc.shared c) n = Some x -> ~ In x (PoolMon.pool (Conc.shared c))) /\
+    NoDup (PoolMon.pool (Conc.shared c)).
+Proof. exact PoolMonProofs.poolmon_no_sharing. Qed.
+Print Assumptions C22_poolmon_no_sharing.
+
+(** a node's lock is returned to the pool only when no thread holds or awaits it.
+    State: every lock in the pool is unlocked and installed in no node.
+    History ([PoolMonBase.disc]): every exchange / load / store on the spin word of a pool lock happens while
+    that lock is allocated (after its "pool_alloc", before its "pool_free"): a thread still holding or awaiting
+    a returned lock would touch it while it is in the pool; a lock is freed only while allocated (never
+    twice) and allocated only while free.  [acnt x tr] = #"pool_alloc x" - #"pool_free x" is 1 exactly for the
+    locks that exist and are not in the pool. *)
+Theorem C22_poolmon_lock_returned_only_when_unused :
+  forall (cap fuel : nat) (ths : list (list PoolMon.op)) c,
+    Conc.reach (PoolMon.init_cfg cap fuel ths) c ->
+    (forall x, In x (PoolMon.pool (Conc.shared c)) ->
+       PoolMon.lspin (Conc.shared c) x = false /\ forall n, PoolMon.plock (Conc.shared c) n <> Some x) /\
+    PoolMonBase.disc (Conc.trace c) /\
+    (forall x, (PoolMonBase.acnt x (Conc.trace c) = 1 <->
+                (~ In x (PoolMon.pool (Conc.shared c)) /\ (x < PoolMon.fresh (Conc.shared c))%nat)) /\
+               (PoolMonBase.acnt x (Conc.trace c) = 0 \/ PoolMonBase.acnt x (Conc.trace c) = 1)).
+Proof. exact PoolMonProofs.poolmon_lock_returned_only_when_unused. Qed.
+Print Assumptions C22_poolmon_lock_returned_only_when_unused.
+
+(** non-vacuity: two threads, two nodes, pool of ONE preallocated lock: both nodes get locked (nested, and
+    through both lock()/scoped_lock), a second lock is created on demand, both locks are returned to the pool,
+    a CAS on m_RefSpin fails at least once (contention on the spin bit) *)
+Example C22_poolmon_nonvacuous :
+  let r := PoolMon.run_case [2; 50; 1] [[[0;0;3;1]]; [[3;1]; [0;0]]] [0;0;1;1;0;1;0;0;1;1;1;0;0]%nat 1000 in
+  snd r = true /\
+  List.length (filter (is_cli "enter") (map snd (fst r))) = 4%nat /\
+  List.length (filter (is_cli "pool_alloc") (map snd (fst r))) = 2%nat /\
+  List.length (filter (is_cli "pool_free") (map snd (fst r))) = 2%nat.
 Proof. vm_compute. repeat split; reflexivity. Qed.
